@@ -15,9 +15,13 @@ import (
 // the run" / "inside the script" of the same run, so they read and update the same globals: those of the run in
 // progress.
 const keptSrc = `param (fn, d)
-global (G, CALLK)
+global (G, CALLK, ABORT)
 if !fn {
-	return func(x) { G.n += x; G.log = append(G.log, x); return G.n }
+	return func(x) { if x < 0 { ABORT(); for {} }; G.n += x; G.log = append(G.log, x); return G.n }
+}
+if d < 0 {
+	// this run is aborted while the kept Invoker's function is running
+	return CALLK(d)
 }
 a := fn(d)
 b := CALLK(d + 1)
@@ -32,20 +36,22 @@ func keptInvoker(c *fw.Ctx) {
 		c.Infra("kept-invoker: %v", err)
 		return
 	}
-	for mode := 0; mode < 3; mode++ {
+	for mode := 0; mode < 6; mode++ {
+		abortedFirst := mode >= 3
+		mode := mode % 3
 		for runs := 1; runs <= 3; runs++ {
 			for _, rec := range []bool{true, false} {
 				if !c.Next() {
 					continue
 				}
-				key := fmt.Sprintf("kept-invoker mode=%d runs=%d recover=%v", mode, runs, rec)
+				key := fmt.Sprintf("kept-invoker mode=%d runs=%d recover=%v aborted-run-first=%v", mode, runs, rec, abortedFirst)
 				if c.Skip(key) {
 					continue
 				}
 				c.Nontrivial()
 				c.AddStates(1)
 				vm := ugo.NewVM(bc).SetRecover(rec)
-				g0 := ugo.Map{"G": ugo.Map{"n": ugo.Int(1000), "log": ugo.Array{}}}
+				g0 := ugo.Map{"G": ugo.Map{"n": ugo.Int(1000), "log": ugo.Array{}}, "CALLK": ugo.Undefined, "ABORT": ugo.Undefined}
 				fnv, err := vm.Run(g0)
 				if err != nil {
 					c.Infra("kept-invoker: first run: %v", err)
@@ -62,9 +68,19 @@ func keptInvoker(c *fw.Ctx) {
 					}
 					return inv.Invoke(args...)
 				}}
+				if abortedFirst {
+					// a run that is aborted while the function runs on the Invoker's child VM; the runs after it are
+					// ordinary runs ("an aborted VM runs later scripts normally")
+					g := ugo.Map{"G": ugo.Map{"n": ugo.Int(5), "log": ugo.Array{}}, "CALLK": callk,
+						"ABORT": &ugo.Function{Name: "ABORT", Value: func(...ugo.Object) (ugo.Object, error) { vm.Abort(); return ugo.Undefined, nil }}}
+					if _, err := vm.Run(g, fnv, ugo.Int(-1)); err == nil {
+						c.Infra("kept-invoker: the aborted run ended without an error")
+						return
+					}
+				}
 				for r := 1; r <= runs; r++ {
 					start := int64(10 * r)
-					g := ugo.Map{"G": ugo.Map{"n": ugo.Int(start), "log": ugo.Array{}}, "CALLK": callk}
+					g := ugo.Map{"G": ugo.Map{"n": ugo.Int(start), "log": ugo.Array{}}, "CALLK": callk, "ABORT": ugo.Undefined}
 					d := int64(r)
 					ret, err := vm.Run(g, fnv, ugo.Int(d))
 					c.AddTransitions(1)
